@@ -29,6 +29,7 @@ STRATA = [
     ("knap-zero", 300, 6000),
     ("knap-fill", 300, 6000),
     ("knap-large", 60, 1200),
+    ("knap-approx", 400, 8000),
     ("bin-int", 500, 10000),
     ("bin-dec", 400, 8000),
     ("bin-straddle", 400, 8000),
@@ -181,6 +182,24 @@ def gen(stratum, rng, tier):
         v = list(w) if style == "w" else [1] * len(w) if style == "one" else [rng.randint(0, 12) for _ in w]
         vp = p if style == "w" else 0
         return _knap_case(v, vp, w, p, cap)
+    if stratum == "knap-approx":
+        # coarse DP grid (4 decimal places, or decimals with capacity > 100) where the best subset fills the
+        # capacity exactly or nearly: rounding a scaled weight the wrong way loses it
+        n = rng.randint(2, 10)
+        if rng.random() < 0.5:
+            p = 4
+            w = [rng.randint(1, 30000) for _ in range(n)]
+        else:
+            p = rng.randint(1, 3)
+            w = [rng.randint(50 * 10 ** p, 250 * 10 ** p) + rng.choice([0, 1, 2, 5, 8]) for _ in range(n)]
+        sub = [x for x in w if rng.random() < 0.6] or [w[0]]
+        cap = sum(sub) + rng.choice([0, 0, 0, 1, 3])
+        if p != 4 and cap <= 100 * 10 ** p:
+            cap = 100 * 10 ** p + 1 + sum(sub)
+        style = rng.choice(["w", "one", "rand"])
+        v = list(w) if style == "w" else [1] * n if style == "one" else [rng.randint(0, 50) for _ in range(n)]
+        vp = p if style == "w" else 0
+        return _knap_case(v, vp, w, p, cap)
     if stratum == "knap-large":
         if rng.random() < 0.5:
             n = rng.randint(17, 40)
@@ -321,9 +340,10 @@ def _judge_knap(case, minimize, res, obs):
         return
     regime = _knap_regime(case)
     if regime == "approximate":
+        # coarse DP grid (4+ decimals or capacity > 100): weights and capacity are both truncated, so the DP is a
+        # relaxation and an answer that survives the solver's own weight re-check is optimal in exact arithmetic;
+        # the OPTIMAL label is therefore judged here as well (DESIGN 10.5)
         obs.event("knap.approximate-regime")
-        obs.mode("certificate_only")
-        return
     best, how = _orc.knapsack_best(v, w, cap, minimize)
     if best is None:
         obs.mode("certificate_only")
